@@ -82,6 +82,12 @@ func faultErr(kind string) error {
 		return errors.New("read /dev/ttyUSB0: i/o timeout")
 	case "deadline":
 		return &fs.PathError{Op: "read", Path: "/dev/ttyUSB0", Err: os.ErrDeadlineExceeded}
+	case "timeout-path":
+		// the text the handler's own comment quotes, carried by an error type that has
+		// a Timeout method - which answers false, because the inner error is plain
+		return &fs.PathError{Op: "read", Path: "/dev/ttyUSB0", Err: errors.New("i/o timeout")}
+	case "timeout-wrapped":
+		return fmt.Errorf("serial port: %w", errors.New("read /dev/ttyUSB0: i/o timeout"))
 	}
 	if e, ok := errOthers[kind]; ok {
 		return e
@@ -536,7 +542,7 @@ func monC13(c *child.Ctx, replay json.RawMessage) {
 		cases = append(cases, k)
 		nontriv = append(nontriv, nt)
 	}
-	faultKinds := []string{"eof", "timeout", "deadline"}
+	faultKinds := []string{"eof", "timeout", "deadline", "timeout-path", "timeout-wrapped"}
 	otherKinds := []string{"other", "other", "other-unexpected", "other-reset", "other-closed", "other-wrapped"}
 	nStreams := c.Share(c.Pick(48, 1600))
 	for si := 0; si < nStreams; si++ {
@@ -572,13 +578,13 @@ func monC13(c *child.Ctx, replay json.RawMessage) {
 		}
 		// single fault at EVERY byte boundary x {eof, timeout}
 		for pos := 0; pos <= len(data); pos++ {
-			for _, f := range []string{"eof", "timeout"} {
+			for _, f := range []string{"eof", "timeout", faultKinds[2+(pos+si)%3]} {
 				add(faultCase{Steps: mk(pos, []string{f}), TimeoutMs: tolMs, WaitMs: 1, Tolerant: true, Note: fmt.Sprintf("single %s after byte %d", f, pos)}, inside[pos])
 			}
 		}
 		// double faults at every 4th boundary
 		for pos := si % 4; pos <= len(data); pos += 4 {
-			f1, f2 := faultKinds[r.Intn(3)], faultKinds[r.Intn(3)]
+			f1, f2 := faultKinds[r.Intn(len(faultKinds))], faultKinds[r.Intn(len(faultKinds))]
 			add(faultCase{Steps: mk(pos, []string{f1, f2}), TimeoutMs: tolMs, WaitMs: 1, Tolerant: true, Note: fmt.Sprintf("%s+%s after byte %d", f1, f2, pos)}, inside[pos])
 		}
 		// bytes handed over together with the fault, in one Read call (as e.g. HTTP
@@ -588,9 +594,9 @@ func monC13(c *child.Ctx, replay json.RawMessage) {
 			pos := r.Range(1, len(data)-1)
 			cut := r.Range(0, pos-1)
 			st := chunked(data[:cut], chunk)
-			st = append(st, step{Data: hexs(data[cut:pos]), Fault: faultKinds[r.Intn(3)]})
+			st = append(st, step{Data: hexs(data[cut:pos]), Fault: faultKinds[r.Intn(len(faultKinds))]})
 			if r.Chance(1, 2) {
-				st = append(st, step{Fault: faultKinds[r.Intn(3)]})
+				st = append(st, step{Fault: faultKinds[r.Intn(len(faultKinds))]})
 			}
 			st = append(st, chunked(data[pos:], chunk)...)
 			c.Count("scripts_with_data_and_fault_in_one_read", 1)
@@ -599,7 +605,7 @@ func monC13(c *child.Ctx, replay json.RawMessage) {
 		if si%3 == 0 {
 			pos := r.Range(0, len(data))
 			st := chunked(data[:pos], chunk)
-			st = append(st, step{Fault: faultKinds[r.Intn(3)], DelayMs: tolMs + 60}, step{Fault: faultKinds[r.Intn(3)]})
+			st = append(st, step{Fault: faultKinds[r.Intn(len(faultKinds))], DelayMs: tolMs + 60}, step{Fault: faultKinds[r.Intn(len(faultKinds))]})
 			st = append(st, chunked(data[pos:], chunk)...)
 			c.Count("scripts_with_a_slow_first_fault", 1)
 			add(faultCase{Steps: st, TimeoutMs: tolMs, WaitMs: 1, Tolerant: true, Note: fmt.Sprintf("the read blocks longer than the tolerance before the first of two faults after byte %d", pos)}, inside[pos])
@@ -615,7 +621,7 @@ func monC13(c *child.Ctx, replay json.RawMessage) {
 				pos := r.Range(0, len(data))
 				var fl []string
 				for j := 0; j < cfg[2]; j++ {
-					fl = append(fl, faultKinds[r.Intn(3)])
+					fl = append(fl, faultKinds[r.Intn(len(faultKinds))])
 				}
 				c.Count("scripts_with_long_retry_pause", 1)
 				add(faultCase{Steps: mk(pos, fl), TimeoutMs: uint(cfg[1]), WaitMs: uint(cfg[0]), Tolerant: true, Note: fmt.Sprintf("%d fault(s) after byte %d, retry pause %d ms, tolerance %d ms", cfg[2], pos, cfg[0], cfg[1])}, inside[pos])
@@ -627,7 +633,7 @@ func monC13(c *child.Ctx, replay json.RawMessage) {
 			if (si+i)%3 == 0 || c.Thorough() {
 				pos := r.Range(0, len(data))
 				c.Count("scripts_with_retry_pause_longer_than_tolerance", 1)
-				add(faultCase{Steps: mk(pos, []string{faultKinds[r.Intn(3)]}), TimeoutMs: uint(cfg[1]), WaitMs: uint(cfg[0]), Tolerant: true, Note: fmt.Sprintf("one fault after byte %d, retry pause %d ms, tolerance %d ms", pos, cfg[0], cfg[1])}, inside[pos])
+				add(faultCase{Steps: mk(pos, []string{faultKinds[r.Intn(len(faultKinds))]}), TimeoutMs: uint(cfg[1]), WaitMs: uint(cfg[0]), Tolerant: true, Note: fmt.Sprintf("one fault after byte %d, retry pause %d ms, tolerance %d ms", pos, cfg[0], cfg[1])}, inside[pos])
 			}
 		}
 		// after an interruption the source answers "nothing yet" (0 bytes, no error) a
@@ -635,9 +641,9 @@ func monC13(c *child.Ctx, replay json.RawMessage) {
 		// nothing may be given up
 		if si%2 == 0 || c.Thorough() {
 			pos := r.Range(0, len(data))
-			fl := []string{faultKinds[r.Intn(3)]}
+			fl := []string{faultKinds[r.Intn(len(faultKinds))]}
 			if r.Chance(1, 2) {
-				fl = append(fl, faultKinds[r.Intn(3)])
+				fl = append(fl, faultKinds[r.Intn(len(faultKinds))])
 			}
 			for j := []int{99, 100, 101, 150, 300, 1000}[r.Intn(6)]; j > 0; j-- {
 				fl = append(fl, "empty")
@@ -669,7 +675,7 @@ func monC13(c *child.Ctx, replay json.RawMessage) {
 		// a Config object that has been used before with the other kind of tolerance
 		{
 			pos := r.Range(0, len(data))
-			f := faultKinds[r.Intn(3)]
+			f := faultKinds[r.Intn(len(faultKinds))]
 			c.Count("scripts_with_a_reused_config", 2)
 			add(faultCase{Steps: mk(pos, []string{f}), TimeoutMs: tolMs, WaitMs: 1, Tolerant: true, UsedBeforeWithTolMs: -1, Note: fmt.Sprintf("single %s after byte %d; the Config was used before with tolerance zero", f, pos)}, inside[pos])
 			add(faultCase{Steps: mk(pos, []string{f}), TimeoutMs: 0, WaitMs: 0, StopAfter: pos, WantErrKind: f, UsedBeforeWithTolMs: 300, Note: fmt.Sprintf("zero tolerance, %s after byte %d; the Config was used before with a tolerance of 300 ms", f, pos)}, inside[pos])
@@ -681,11 +687,11 @@ func monC13(c *child.Ctx, replay json.RawMessage) {
 			p2 := r.Range(p1+1, len(data))
 			for _, gap := range []int{220, 260, 300} {
 				st := chunked(data[:p1], chunk)
-				st = append(st, step{Fault: faultKinds[r.Intn(3)]})
+				st = append(st, step{Fault: faultKinds[r.Intn(len(faultKinds))]})
 				mid := chunked(data[p1:p2], 4096)
 				mid[len(mid)-1].DelayMs = gap // first fault at 0, resumed at ~100, next interruption at ~100+gap
 				st = append(st, mid...)
-				st = append(st, step{Fault: faultKinds[r.Intn(3)]}, step{Fault: faultKinds[r.Intn(3)]})
+				st = append(st, step{Fault: faultKinds[r.Intn(len(faultKinds))]}, step{Fault: faultKinds[r.Intn(len(faultKinds))]})
 				st = append(st, chunked(data[p2:], chunk)...)
 				c.Count("scripts_with_a_second_interruption_soon_after_the_first", 1)
 				add(faultCase{Steps: st, TimeoutMs: 400, WaitMs: 100, Tolerant: true, Note: fmt.Sprintf("interruption after byte %d, resumed, %d ms of quiet, double interruption after byte %d (retry pause 100 ms, tolerance 400 ms)", p1, gap, p2)}, inside[p1] || inside[p2])
@@ -696,14 +702,14 @@ func monC13(c *child.Ctx, replay json.RawMessage) {
 			p1 := r.Range(0, len(data)-1)
 			p2 := r.Range(p1+1, len(data))
 			st := chunked(data[:p1], chunk)
-			st = append(st, step{Fault: faultKinds[r.Intn(3)]})
+			st = append(st, step{Fault: faultKinds[r.Intn(len(faultKinds))]})
 			if r.Chance(1, 2) {
-				st = append(st, step{Fault: faultKinds[r.Intn(3)]})
+				st = append(st, step{Fault: faultKinds[r.Intn(len(faultKinds))]})
 			}
 			st = append(st, chunked(data[p1:p2], chunk)...)
-			st = append(st, step{Fault: faultKinds[r.Intn(3)]})
+			st = append(st, step{Fault: faultKinds[r.Intn(len(faultKinds))]})
 			if r.Chance(1, 2) {
-				st = append(st, step{Fault: faultKinds[r.Intn(3)]})
+				st = append(st, step{Fault: faultKinds[r.Intn(len(faultKinds))]})
 			}
 			st = append(st, chunked(data[p2:], chunk)...)
 			add(faultCase{Steps: st, TimeoutMs: tolMs, WaitMs: 1, Tolerant: true, Note: fmt.Sprintf("interruptions after bytes %d and %d", p1, p2)}, inside[p1] || inside[p2])
@@ -714,7 +720,7 @@ func monC13(c *child.Ctx, replay json.RawMessage) {
 		if si%2 == 0 {
 			pos := r.Range(0, len(data))
 			st := chunked(data[:pos], chunk)
-			st = append(st, step{Fault: faultKinds[r.Intn(3)]}, step{Fault: faultKinds[r.Intn(3)], DelayMs: 160})
+			st = append(st, step{Fault: faultKinds[r.Intn(len(faultKinds))]}, step{Fault: faultKinds[r.Intn(len(faultKinds))], DelayMs: 160})
 			st = append(st, chunked(data[pos:], chunk)...)
 			c.Count("stop_scripts_slow_second_fault", 1)
 			add(faultCase{Steps: st, TimeoutMs: 100, WaitMs: 1, StopAfter: pos, WantErrKind: "eof", Note: fmt.Sprintf("after byte %d an interruption, then a read that blocks 160 ms (tolerance 100 ms) before it reports the next", pos)}, inside[pos])
@@ -725,12 +731,12 @@ func monC13(c *child.Ctx, replay json.RawMessage) {
 			switch (pos/stepStop + si) % 4 {
 			case 3:
 				// a hard error directly after a tolerated end-of-file or timeout (no byte between)
-				f := faultKinds[r.Intn(3)]
+				f := faultKinds[r.Intn(len(faultKinds))]
 				c.Count("stop_scripts_other_error_after_tolerated_fault", 1)
 				ok := otherKinds[r.Intn(len(otherKinds))]
 				add(faultCase{Steps: mk(pos, []string{f, ok}), TimeoutMs: tolMs, WaitMs: 1, StopAfter: pos, WantErrKind: ok, Note: fmt.Sprintf("%s then another read error (%v) after byte %d", f, errOthers[ok], pos)}, inside[pos])
 			case 0:
-				f := faultKinds[r.Intn(3)]
+				f := faultKinds[r.Intn(len(faultKinds))]
 				c.Count("stop_scripts_zero_tolerance", 1)
 				add(faultCase{Steps: mk(pos, []string{f}), TimeoutMs: 0, WaitMs: 0, StopAfter: pos, WantErrKind: f, Note: fmt.Sprintf("zero tolerance, %s after byte %d", f, pos)}, inside[pos])
 			case 1:
@@ -748,7 +754,7 @@ func monC13(c *child.Ctx, replay json.RawMessage) {
 				fl := []string{}
 				withEmpty := r.Chance(1, 3)
 				for i := 0; i < 12; i++ {
-					fl = append(fl, faultKinds[r.Intn(3)])
+					fl = append(fl, faultKinds[r.Intn(len(faultKinds))])
 					if withEmpty {
 						fl = append(fl, "empty")
 					}
